@@ -444,6 +444,9 @@ class AdvancedTag(object):
         for block in state['blocks']:
             self.appendBlock(block)
 
+        # Appending blocks (even the initial empty text block) clears the self-closing flag: restore it
+        self.isSelfClosing = state['isSelfClosing']
+
 
         #myAttributes = object.__getattribute__(self, '_attributes')
 
